@@ -270,11 +270,20 @@ def root_cause(ts, cfg, inst, rep, cls, d, p, doc_shape, kind, card=None, n=0):
         if kind == "unmatched" and refs:
             behind = [c for c in {x for cs in inst.values() for x in cs} if pipespec.shape_label(c) == refs[0]]
             nb = neighbours(ts, cfg["inverse_paths"])
+            n_ref = n_iri = n_bn = 0
+            stranger = False
             for i, cs in inst.items():
                 if cls in cs:
-                    for v in nb.get((i, d, p), []):
-                        if v[0] != "L" and not (v[1] in inst and any(b in inst[v[1]] for b in behind)):
-                            return "rc_c03_reference_tie"
+                    vals = [v for v in nb.get((i, d, p), []) if v[0] != "L"]
+                    is_ref = [v[1] in inst and any(b in inst[v[1]] for b in behind) for v in vals]
+                    stranger = stranger or not all(is_ref)
+                    n_ref += any(is_ref)
+                    n_iri += any(v[0] == "I" for v in vals)
+                    n_bn += any(v[0] == "B" for v in vals)
+            tie = n_ref in (n_iri, n_bn, n_iri + n_bn)
+            # with keep_less_specific=False the compared counts are those of the most frequent exact cardinalities
+            if stranger and (tie or not cfg["keep_less_specific"]):
+                return "rc_c03_reference_tie"
     # keep_less_specific=False keeps the most frequent exact cardinality {1} and relaxes it to '?'
     if not cfg["keep_less_specific"] and kind == "card" and card == "?" and n > 1:
         return "rc_c03_keep_less_specific_false"
